@@ -281,7 +281,8 @@ class DBStorage(BaseStorage):
             tags = set()
             for tag in event.tags:
                 if tag[0] in ("delegation", "expiration"):
-                    tags.add((tag[0], tag[1]))
+                    if len(tag) > 1:
+                        tags.add((tag[0], tag[1]))
                 elif len(tag[0]) == 1:
                     tags.add((tag[0], tag[1] if len(tag) > 1 else ""))
             if tags:
@@ -297,11 +298,16 @@ class DBStorage(BaseStorage):
                 # delete the referenced events
                 for tag in event.tags:
                     name = tag[0]
-                    if name == "e":
+                    if name == "e" and len(tag) > 1:
                         event_id = tag[1]
+                        try:
+                            event_id_bytes = bytes.fromhex(event_id)
+                        except (ValueError, TypeError):
+                            # a malformed reference must not void the rest of the deletion
+                            continue
                         query = sa.delete(self.EventTable).where(
                             (self.EventTable.c.pubkey == bytes.fromhex(event.pubkey))
-                            & (self.EventTable.c.id == bytes.fromhex(event_id))
+                            & (self.EventTable.c.id == event_id_bytes)
                         )
                         await conn.execute(query)
                         self.log.info("Deleted event %s", event_id)
